@@ -14,7 +14,7 @@ fn main() {
     let args = vkit::Args::parse();
     iceoryx2_log::set_log_level(iceoryx2_log::LogLevel::Fatal);
     let report = match args.sub.as_str() {
-        "c09" => c09::run(&args),
+        "c09" => if args.str("part", "conc") == "midop" { c09::run_midop(&args) } else { c09::run(&args) },
         "c03" => c03::run(&args),
         "c05" => c05::run(&args),
         "c10" => if args.str("part", "conc") == "midop" { c10::run_midop(&args) } else { c10::run(&args) },
